@@ -115,35 +115,55 @@ let run (toks : string list) : string =
       if i < Array.length renders then
         let (content, e) = renders.(i) in ([content], e)
       else ([], Some (M.ELocal (bytes_of_string "no render result in the case line"))) in
-    let o = M.run_gen cfg caps caps_tls script ms render in
-    let w = o.M.o_world in
-    let dial_ok = (match o.M.o_ret with M.RetDial -> false | _ -> true) in
-    (match kind with
-     | "c04" ->
-       Printf.sprintf "dial=%s step=%s T=%s" (boolc dial_ok) (boolc (M.all_attributed w))
-         (String.concat "|" (List.map event_string w.M.w_trace))
-     | "c03" ->
-       let cs = if w.M.w_commits = [] then "-" else
-           String.concat "," (List.map (fun (c : M.commit) ->
-               Printf.sprintf "%s>%s/%d/%d" (tok (string_of_bytes c.M.cm_from))
-                 (String.concat "+" (List.map string_of_bytes c.M.cm_rcpt))
-                 (List.length c.M.cm_data) (adler32 c.M.cm_data)) w.M.w_commits) in
-       let d = String.concat "" (List.map (fun (r : M.mres) -> boolc r.M.r_delivered) o.M.o_results)
-       and e = String.concat "" (List.map (fun (r : M.mres) -> boolc (r.M.r_err <> None)) o.M.o_results) in
-       Printf.sprintf "dial=%s C=%s D=%s E=%s P=0" (boolc dial_ok) cs (tok d) (tok e)
-     | "c20" ->
-       let rk, j = match o.M.o_ret with
-         | M.RetNil -> "nil", 0 | M.RetDial -> "dial", 0 | M.RetConnCheck -> "conncheck", 0
-         | M.RetJoined n -> "joined", int_of_nat n | M.RetClose -> "close", 0 in
-       let one (r : M.mres) = match r.M.r_err with
-         | None -> "-"
-         | Some (s : M.senderr) ->
-           Printf.sprintf "%d/%d/%s/%s/%s" (int_of_n s.M.se_reason) (int_of_n s.M.se_code) (boolc s.M.se_temp)
-             (hex_of_bytes s.M.se_esc)
-             (if s.M.se_rcpts = [] then "-" else String.concat "+" (List.map string_of_bytes s.M.se_rcpts)) in
-       let ms = if o.M.o_results = [] then "-" else String.concat ";" (List.map one o.M.o_results) in
-       Printf.sprintf "R=%s J=%d M=%s" rk j ms
-     | k -> "UNKNOWN-KIND-" ^ k)
+    let noop_tok, prog = match split_on '@' noop with
+      | [n; p] -> n, p | n :: _ -> n, "das" | [] -> "1", "das" in
+    let cfg = { cfg with M.cf_noop = (noop_tok <> "0") } in
+    let commits_string (w : M.world) = if w.M.w_commits = [] then "-" else
+        String.concat "," (List.map (fun (c : M.commit) ->
+            Printf.sprintf "%s>%s/%d/%d" (tok (string_of_bytes c.M.cm_from))
+              (String.concat "+" (List.map string_of_bytes c.M.cm_rcpt))
+              (List.length c.M.cm_data) (adler32 c.M.cm_data)) w.M.w_commits) in
+    let one (r : M.mres) = match r.M.r_err with
+      | None -> "-"
+      | Some (s : M.senderr) ->
+        Printf.sprintf "%d/%d/%s/%s/%s" (int_of_n s.M.se_reason) (int_of_n s.M.se_code) (boolc s.M.se_temp)
+          (hex_of_bytes s.M.se_esc)
+          (if s.M.se_rcpts = [] then "-" else String.concat "+" (List.map string_of_bytes s.M.se_rcpts)) in
+    let ret_string = function
+      | M.RetNil -> "nil", 0 | M.RetDial -> "dial", 0 | M.RetConnCheck -> "conncheck", 0
+      | M.RetJoined n -> "joined", int_of_nat n | M.RetClose -> "close", 0 in
+    let obs kind dial_ok (w : M.world) (results : M.mres list) (rhead : string) =
+      match kind with
+      | "c04" ->
+        Printf.sprintf "dial=%s step=%s T=%s" (boolc dial_ok) (boolc (M.all_attributed w))
+          (String.concat "|" (List.map event_string w.M.w_trace))
+      | "c03" ->
+        let d = String.concat "" (List.map (fun (r : M.mres) -> boolc r.M.r_delivered) results)
+        and e = String.concat "" (List.map (fun (r : M.mres) -> boolc (r.M.r_err <> None)) results) in
+        Printf.sprintf "dial=%s C=%s D=%s E=%s P=0" (boolc dial_ok) (commits_string w) (tok d) (tok e)
+      | "c20" ->
+        let ms = if results = [] then "-" else String.concat ";" (List.map one results) in
+        Printf.sprintf "%s M=%s" rhead ms
+      | k -> "UNKNOWN-KIND-" ^ k in
+    let run_one ms =
+      let o = M.run_gen cfg caps caps_tls script ms render in
+      let dial_ok = (match o.M.o_ret with M.RetDial -> false | _ -> true) in
+      let rk, j = ret_string o.M.o_ret in
+      obs kind dial_ok o.M.o_world o.M.o_results (Printf.sprintf "R=%s J=%d" rk j) in
+    let rec split_at k l = if k = 0 then ([], l) else match l with [] -> ([], []) | x :: t -> let (a, b) = split_at (k - 1) t in (x :: a, b) in
+    let half = (List.length ms + 1) / 2 in
+    (match prog with
+     | "two" -> let (a, b) = split_at half ms in run_one a ^ " || " ^ run_one b
+     | "reset" ->
+       let (a, b) = split_at half ms in
+       let o = M.run_reset_gen cfg caps caps_tls script a b render in
+       let dial_ok = (match o.M.p_ret1 with M.RetDial -> false | _ -> true) in
+       let k1, j1 = ret_string o.M.p_ret1 and k2, j2 = ret_string o.M.p_ret2 in
+       let rhead = match o.M.p_reset with
+         | None -> Printf.sprintf "R=%s J=%d" k1 j1
+         | Some ok -> Printf.sprintf "R=%s+%s+r%s J=%d+%d" k1 k2 (boolc ok) j1 j2 in
+       obs kind dial_ok o.M.p_world (o.M.p_results1 @ o.M.p_results2) rhead
+     | _ -> run_one ms)
   | _ -> "BAD-CASE-LINE"
 
 let () =
